@@ -74,7 +74,9 @@ def run(ctx):
         if gen.temporal_count(g) <= 4:
             fam_n.append({'K': K, 'f': ('A', g), 'cert': 4 if K['n'] <= 2 else 5})
     fam_e = [dict(c, mode=rnd.choice(['text', 'raw', 'raw'])) for c in gen.samp(rnd, fam_a + fam_n + fam_l, 1500 if q else 20000)]
-    for fam in (fam_a, fam_b, fam_c, fam_d, fam_e, fam_n, fam_l, fam_s):
+    # tall formulas (nesting height 100-140, few temporal operators): a specification folded from many requirements
+    fam_t = [{'K': rnd.choice(scope3), 'f': ('A', gen.tall_path(rnd, rnd.randint(98, 140))), 'late_edge': False} for _ in range(24 if q else 300)]
+    for fam in (fam_a, fam_b, fam_c, fam_d, fam_e, fam_n, fam_l, fam_s, fam_t):
         for c in fam:
             c['logic'] = 'LTL'
     # Layer-B binding (diagnostic): local consistency of the tableau atoms the real _build_atoms produced
@@ -94,7 +96,7 @@ def run(ctx):
         if drift:
             ctx.log('mechanism drift (diagnostic only): ' + json.dumps(sorted(drift.items())[0][1])[:400])
     events, bad = mcfam.run_families(ctx, [('scope2', fam_a), ('catalogue3', fam_b), ('deep', fam_c), ('liveness3', fam_l), ('shared-polarity', fam_s), ('nary', fam_n), ('random', fam_d),
-                                           ('text', fam_e)])
+                                           ('text', fam_e), ('tall', fam_t)])
 
 
 def replay(ctx, path):
